@@ -52,15 +52,16 @@ func loadPlanFile() map[string]string {
 }
 
 type bcCall struct {
-	kind   string
-	id     int
-	n      int
-	cancel context.CancelFunc
-	ret    string
-	err    error
-	done   bool
-	retEv  int // event during which the return was observed
-	wrote  bool
+	kind    string
+	id      int
+	n       int
+	cancel  context.CancelFunc
+	ret     string
+	err     error
+	done    bool
+	retEv   int // event during which the return was observed
+	startEv int
+	wrote   bool
 }
 
 func (e *bcEngine) Gen(rng *rand.Rand, tier string, n int, emit func(string)) {
@@ -74,6 +75,9 @@ func (e *bcEngine) Gen(rng *rand.Rand, tier string, n int, emit func(string)) {
 	emit("conn ack:0:0 ping pg pub:1:1 disc pa:1")
 	emit("pub:1:1 conn wf:1 ack:0:0 pub:1:2 wf:0 pub:1:3 pa:3")
 	emit("conn ack:0:0 pub:1:7 pub:1:7 pa:7 pa:7")
+	emit("wf:1 conn lclose")
+	emit("wf:1 conn eof")
+	emit("wf:1 conn wf:0 pub:1:1 lclose")
 	if tier == "thorough" {
 		// every request kind x every step of its exchange x every cause, alone and with other blocked calls
 		kinds := map[string][]string{
@@ -111,6 +115,9 @@ func (e *bcEngine) Gen(rng *rand.Rand, tier string, n int, emit func(string)) {
 		var evs []string
 		if rng.Intn(12) == 0 {
 			evs = append(evs, "pub:1:1")
+		}
+		if rng.Intn(15) == 0 {
+			evs = append(evs, "wf:1") // the CONNECT write itself fails
 		}
 		evs = append(evs, "conn")
 		switch rng.Intn(10) {
@@ -263,7 +270,7 @@ func (e *bcEngine) Exec(f []string) Result {
 	var evRets [][]int // calls that returned during each event
 	start := func(kind string, cid, n int) {
 		ctx, cancel := context.WithCancel(context.Background())
-		cl := &bcCall{kind: kind, id: cid, n: n, cancel: cancel}
+		cl := &bcCall{kind: kind, id: cid, n: n, cancel: cancel, startEv: curEv}
 		mu.Lock()
 		calls = append(calls, cl)
 		mu.Unlock()
@@ -509,9 +516,9 @@ func (e *bcEngine) Exec(f []string) Result {
 	for i, ev := range evs {
 		if strings.HasPrefix(ev, "cancel:") {
 			k := atoi(ev[7:])
-			if k < len(calls) && (!calls[k].done || calls[k].retEv > i) {
+			if k < len(calls) && calls[k].startEv < i && (!calls[k].done || calls[k].retEv > i) {
 				props = append(props, viol("C11", "cancel-not-honoured", "call %d (%s) did not return when its context was cancelled (event %d)", k, calls[k].kind, i))
-			} else if k < len(calls) && calls[k].retEv == i && !errors.Is(calls[k].err, context.Canceled) {
+			} else if k < len(calls) && calls[k].startEv < i && calls[k].retEv == i && !errors.Is(calls[k].err, context.Canceled) {
 				props = append(props, viol("C11", "cancel-wrong-error", "call %d returned %v on cancellation, not the context's error", k, calls[k].err))
 			}
 		}
